@@ -102,6 +102,22 @@ struct limitbuf : public std::streambuf {
 	}
 };
 
+// a value that is not a string: its operator<< writes in pieces (single characters, small blocks, one large block), so the template
+// filters see the text through their stream buffers in every chunking
+struct piecewise { std::string const *s; unsigned how; };
+static std::ostream &operator<<(std::ostream &out, piecewise const &p)
+{
+	std::string const &s = *p.s; size_t i = 0; unsigned h = p.how;
+	while (i < s.size()) {
+		h = h * 1103515245u + 12345u;
+		size_t n = (h >> 16) % 4 == 0 ? 1 : (h >> 16) % 4 == 1 ? 1 + (h >> 20) % 7 : (h >> 16) % 4 == 2 ? 100 + (h >> 20) % 200 : s.size();
+		n = std::min(n, s.size() - i);
+		if (n == 1) out.put(s[i]); else out.write(s.data() + i, (std::streamsize)n);
+		i += n;
+	}
+	return out;
+}
+
 static void all_paths(std::string const &in, bool heavy)
 {
 	std::string rp = "{\"in\":\"" + hex(in) + "\"}";
@@ -112,12 +128,15 @@ static void all_paths(std::string const &in, bool heavy)
 	{ std::stringbuf sb; int r = cppcms::util::escape(b, e, sb); if (r != 0) O().viol("escape:streambuf-reported-failure", rp, rp); if (sb.str() != e1) O().viol("escape:paths-disagree:streambuf", rp, rp); }
 	{ std::ostringstream ss; cppcms::util::escape(b, e, ss); if (!ss) O().viol("escape:ostream-failbit", rp, rp); if (ss.str() != e1) O().viol("escape:paths-disagree:ostream", rp, rp); }
 	{ std::ostringstream ss; ss << cppcms::filters::escape(in); check_escaped(in, ss.str(), "filters::escape"); }
+	{ piecewise pw = { &in, (unsigned)fnv(in) }; std::ostringstream ss; ss << "[" << cppcms::filters::escape(pw) << "]"; std::string o = ss.str(); if (o != "[" + e1 + "]") O().viol("escape:paths-disagree:filter-on-streamed-object", rp, rp); O().count("filter_piecewise_checks"); }
+	{ std::ostringstream ss; ss << cppcms::filters::escape(in.c_str()); std::string cs = in.c_str(); if (ss.str() != cppcms::util::escape(cs)) O().viol("escape:paths-disagree:filter-on-c-string", rp, rp); }
 	// --- urlencode
 	std::string u1 = cppcms::util::urlencode(in);
 	check_url(in, u1, "string");
 	{ std::stringbuf sb; int r = cppcms::util::urlencode(b, e, sb); if (r != 0 || sb.str() != u1) O().viol("url:paths-disagree:streambuf", rp, rp); }
 	{ std::ostringstream ss; cppcms::util::urlencode(b, e, ss); if (ss.str() != u1) O().viol("url:paths-disagree:ostream", rp, rp); }
 	{ std::ostringstream ss; ss << cppcms::filters::urlencode(in); if (ss.str() != u1) O().viol("url:paths-disagree:filter", rp, rp); }
+	{ piecewise pw = { &in, (unsigned)fnv(in) + 7 }; std::ostringstream ss; ss << "[" << cppcms::filters::urlencode(pw) << "]"; if (ss.str() != "[" + u1 + "]") O().viol("url:paths-disagree:filter-on-streamed-object", rp, rp); }
 	if (cppcms::util::urldecode(u1) != in) O().viol("url:decode-does-not-invert", "in=" + hex(in) + " enc=" + u1, rp);
 	{ exact buf(u1.size()); memcpy(buf.p, u1.data(), u1.size()); if (cppcms::util::urldecode((char const *)buf.p, (char const *)buf.p + buf.n) != in) O().viol("url:decode-ptr-does-not-invert", rp, rp); }
 	// --- base64url
@@ -140,6 +159,8 @@ static void all_paths(std::string const &in, bool heavy)
 	}
 	{ std::string o = "S"; bool ok = cppcms::b64url::decode(want, o); if (!ok || (in.empty() ? (o != "S" && !o.empty()) : o != in)) O().viol("b64:decode-string", rp, rp); }
 	{ std::ostringstream ss; cppcms::b64url::encode((unsigned char const *)b, (unsigned char const *)e, ss); if (ss.str() != want) O().viol("b64:encode-ostream", rp, rp); }
+	{ std::ostringstream ss; ss << "[" << cppcms::filters::base64_urlencode(in) << "]"; if (ss.str() != "[" + want + "]") O().viol("b64:encode-filter", rp, rp); }
+	{ piecewise pw = { &in, (unsigned)fnv(in) + 13 }; std::ostringstream ss; ss << "[" << cppcms::filters::base64_urlencode(pw) << "]"; if (ss.str() != "[" + want + "]") O().viol("b64:encode-filter-on-streamed-object", rp, rp); }
 	if (!heavy) return;
 	// --- failing sinks: every failure point
 	size_t full = e1.size();
